@@ -4,7 +4,8 @@
 (* "Processing", doc/by-example.md, doc/rfc.md; DESIGN.md appendix D).     *)
 (*                                                                         *)
 (* A compiled specification is                                             *)
-(*   [nodes : [name -> Node], aeb : BOOLEAN, aen : STRING]                 *)
+(*   [nodes : [name -> Node], aeb : BOOLEAN, aen : STRING, en : STRING]    *)
+(*   (en: the spec's error node, "" or absent for the node "error")        *)
 (*   Node   = [act : NoOps | <<"ops", ops>> , native : BOOLEAN,            *)
 (*             btype : "none" | "message" | "bindings",                    *)
 (*             branches : Seq([pat : <<"nopat">> | pattern,                *)
@@ -27,6 +28,9 @@ ErrText == <<"str", "<err>">>
 St(n, bs) == <<"st", n, bs>>
 StNode(s) == s[2]
 StBs(s)   == s[3]
+
+\* the spec's error node: the node it names (errorNode), or the node called "error"
+ErrNode(spec) == IF "en" \in DOMAIN spec /\ spec.en # "" THEN spec.en ELSE "error"
 
 Out(stride, to, consumed, em, cls) ==
   [stride |-> stride, to |-> to, consumed |-> consumed, emitted |-> em, cls |-> cls]
@@ -109,7 +113,7 @@ StepOutcomes(spec, st, pending, perm) ==
         \* "the bindings at that point": the given bindings; after a failed action
         \* the bindings extended with the error are admitted as well
         lasts    == IF failed THEN {bs0, bs1} ELSE {bs0}
-        errTos   == IF hasAct THEN {St("error", ErrBs(bs1, n, lb)) : lb \in lasts} ELSE {NONE}
+        errTos   == IF hasAct THEN {St(ErrNode(spec), ErrBs(bs1, n, lb)) : lb \in lasts} ELSE {NONE}
     IN UNION {
          CASE r.k = "take" -> {Out(TRUE, St(r.target, r.bs), consumed, em, "")}
            [] r.k = "err"  -> {Out(TRUE, t, consumed, em, r.cls) : t \in errTos}
@@ -163,10 +167,15 @@ WalkStrideOutcomes(spec, st, pending, perm) ==
   LET n == StNode(st) bs0 == StBs(st) IN
   UNION {
     IF o.cls = "" THEN {[to |-> o.to, consumed |-> o.consumed, emitted |-> o.emitted]}
-    ELSE IF n = "error" THEN {[to |-> o.to, consumed |-> o.consumed, emitted |-> o.emitted]}
-    ELSE {[to |-> St("error", ErrBs(b, n, lb)), consumed |-> o.consumed, emitted |-> o.emitted]
+    \* a step that fails AT the error node goes nowhere: the walk stops there (InternalError) and hands the error back
+    ELSE IF n = ErrNode(spec) THEN {[to |-> NONE, consumed |-> o.consumed, emitted |-> o.emitted]}
+    ELSE {[to |-> St(ErrNode(spec), ErrBs(b, n, lb)), consumed |-> o.consumed, emitted |-> o.emitted]
           : b \in {bs0, WithErr(bs0)}, lb \in {bs0, WithErr(bs0)}}
     : o \in StepOutcomes(spec, st, pending, perm) }
+
+\* the step at this state with this pending message can only fail (every allowed outcome is an error)
+MustFail(spec, st, pending, perm) == \A o \in StepOutcomes(spec, st, pending, perm) : o.cls # ""
+MayFail(spec, st, pending, perm)  == \E o \in StepOutcomes(spec, st, pending, perm) : o.cls # ""
 
 \* no further step is possible without a new message
 Quiescent(spec, st, perm) ==
